@@ -1,7 +1,48 @@
 (* C06 - libavoid: incremental transactions give what routing from scratch gives.
-   Only statements closed by `exact`; proofs live in Avoid/ActionQueue.v. *)
-From Adapt Require Import Num.Qaux Avoid.ActionQueueModel.
+   Only statements closed by `exact`; proofs live in Avoid/ActionQueue.v and Avoid/HistoryIndep.v. *)
+From Adapt Require Import Num.Qaux Avoid.SegPolyModel Avoid.CertDijkstraModel Avoid.RefRouterModel
+     Avoid.ActionQueueModel Avoid.ActionQueue Avoid.HistoryIndep.
 
-Theorem C06_empty_transaction_identity_0 st : queue st = [] -> process_transaction st = (st, false).
-Proof. intro H. unfold process_transaction. rewrite H. reflexivity. Qed.
-Print Assumptions C06_empty_transaction_identity_0.
+Theorem C06_queue_dedup t h st : run (init t) h = Some st -> NoDup (keys (queue st)).
+Proof. exact (queue_dedup t h st). Qed.
+Print Assumptions C06_queue_dedup.
+
+Theorem C06_empty_transaction_identity st : queue st = [] -> process_transaction st = (st, false).
+Proof. exact (empty_transaction_identity st). Qed.
+Print Assumptions C06_empty_transaction_identity.
+
+Theorem C06_process_preserves_view st :
+  Inv st -> Inv (process_actions st) /\ forall i, view (process_actions st) i = view st i.
+Proof. exact (process_preserves st). Qed.
+Print Assumptions C06_process_preserves_view.
+
+Theorem C06_queue_refines_sequential t h st :
+  run (init t) (h ++ [Process]) = Some st ->
+  forall i, lookup (scene st) i = lookup (s_shapes (seq_run h)) i.
+Proof. exact (queue_refines_sequential_after_process t h st). Qed.
+Print Assumptions C06_queue_refines_sequential.
+
+Theorem C06_model_history_independent t1 t2 h1 h2 st1 st2 :
+  run (init t1) h1 = Some st1 -> run (init t2) h2 = Some st2 -> queue st1 = [] -> queue st2 = [] ->
+  (forall i, lookup (s_shapes (seq_run h1)) i = lookup (s_shapes (seq_run h2)) i) ->
+  forall ids s d pen,
+    route_plain (canonical (scene st1) ids) s d = route_plain (canonical (scene st2) ids) s d /\
+    route_taut pen (canonical (scene st1) ids) s d = route_taut pen (canonical (scene st2) ids) s d.
+Proof. exact (C06_model_history_independent t1 t2 h1 h2 st1 st2). Qed.
+Print Assumptions C06_model_history_independent.
+
+Local Open Scope Q_scope.
+Theorem C06_reflect_lower_bound a b c d x L1 L2 :
+  0 <= L1 -> 0 <= L2 ->
+  (x - a) * (x - a) + b * b <= L1 * L1 -> (x - c) * (x - c) + d * d <= L2 * L2 ->
+  reflect_est_sq a b c d <= (L1 + L2) * (L1 + L2).
+Proof. exact (reflect_lower_bound a b c d x L1 L2). Qed.
+Print Assumptions C06_reflect_lower_bound.
+
+Theorem C06_reflect_point_tight a b c d :
+  ~ b + d == 0 ->
+  let x := reflect_x a b c d in
+  ((x - a) * (x - a) + b * b) * ((b + d) * (b + d)) == (b * b) * reflect_est_sq a b c d /\
+  ((x - c) * (x - c) + d * d) * ((b + d) * (b + d)) == (d * d) * reflect_est_sq a b c d.
+Proof. exact (reflect_point_tight a b c d). Qed.
+Print Assumptions C06_reflect_point_tight.
